@@ -146,17 +146,17 @@ Pads == {[case |-> c, pad |-> pad] : c \in PadBase, pad \in 1..3}
    differ are called); auto: the packet identifier is not set by the caller but left to the library (QoS 0 -> 1/2). *)
 SmallPub == {[ty |-> "PUBLISH", dup |-> d, q |-> q, r |-> r, tl |-> tl, id |-> id, pl |-> pl] :
                d \in 0..1, q \in 0..2, r \in 0..1, tl \in {1, 2}, id \in {1, 258}, pl \in {0, 3}}
-SmallConn == {[ty |-> "CONNECT", ver |-> 4, clean |-> cl, will |-> w.will, wq |-> w.wq, wr |-> w.wr, wtl |-> w.wtl, wml |-> w.wml,
+SmallConn == {[ty |-> "CONNECT", ver |-> ver, clean |-> cl, will |-> w.will, wq |-> w.wq, wr |-> w.wr, wtl |-> w.wtl, wml |-> w.wml,
                ul |-> up[1], pwl |-> up[2], ka |-> ka, cidl |-> cidl] :
-               cl \in 0..1, ka \in {0, 30}, cidl \in {1, 15},
+               ver \in {3, 4}, cl \in 0..1, ka \in {0, 30}, cidl \in {1, 15},
                w \in {[will |-> 0, wq |-> 0, wr |-> 0, wtl |-> 0, wml |-> 0], [will |-> 1, wq |-> 1, wr |-> 1, wtl |-> 2, wml |-> 0],
                       [will |-> 1, wq |-> 2, wr |-> 0, wtl |-> 1, wml |-> 3]},
                up \in {<<0, 0>>, <<1, 0>>, <<2, 1>>}}
 SmallSub == {c \in SubscribeCases : c.id = 1 /\ c.k <= 3 /\ c.tl = 1 /\ c.tl1 = 0 /\ c.pat = 3}
 SmallUnsub == {c \in UnsubscribeCases : c.id = 1 /\ c.k <= 3 /\ c.tl = 1 /\ c.tl1 = 0}
 OneGroup(a, b) == \* CONNECT pairs differ in exactly one group of fields
-  Cardinality({g \in {"clean", "ka", "cid", "will", "cred"} :
-     CASE g = "clean" -> a.clean # b.clean [] g = "ka" -> a.ka # b.ka [] g = "cid" -> a.cidl # b.cidl
+  Cardinality({g \in {"ver", "clean", "ka", "cid", "will", "cred"} :   \* "ver": protocol level 3 <-> 4, the protocol name follows it (SetVersion)
+     CASE g = "ver" -> a.ver # b.ver [] g = "clean" -> a.clean # b.clean [] g = "ka" -> a.ka # b.ka [] g = "cid" -> a.cidl # b.cidl
        [] g = "will" -> <<a.will, a.wq, a.wr, a.wtl, a.wml>> # <<b.will, b.wq, b.wr, b.wtl, b.wml>>
        [] OTHER -> <<a.ul, a.pwl>> # <<b.ul, b.pwl>>}) = 1
 Mods == {[from |-> a, to |-> b, auto |-> au] : a \in SmallPub, b \in SmallPub, au \in BOOLEAN} \cup
